@@ -47,7 +47,9 @@ TyU == << [n |-> "bool", ty |-> Bool], [n |-> "void", ty |-> Void], [n |-> "int"
           [n |-> "optoptbool", ty |-> OptOptB],
           [n |-> "optbool_bool", ty |-> Tup(<<OptB, Bool>>)], [n |-> "Shape_float", ty |-> Tup(<<Shape, FltT>>)],
           [n |-> "boolbool_bool", ty |-> Tup(<<Tup(<<Bool, Bool>>), Bool>>)], [n |-> "string_int", ty |-> Tup(<<StrT, IntT>>)],
-          [n |-> "Color_Color", ty |-> Tup(<<Color, Color>>)] >>
+          [n |-> "Color_Color", ty |-> Tup(<<Color, Color>>)],
+          \* a void payload followed by another column
+          [n |-> "Ev_bool", ty |-> Tup(<<Ev, Bool>>)] >>
 NT == Len(TyU)
 UserTys == <<Color, Shape, Nm, Ev, Pt, Wr>>
 Header == FlatS([i \in 1..Len(UserTys) |-> TypeDecl(UserTys[i]) \o ShowDecl(UserTys[i])])
